@@ -387,6 +387,11 @@ func (c *checker) badPush(i int) {
 	rng := run.Rand(13, uint64(i), uint64(len(c.kind)))
 	repo := fmt.Sprintf("bad/r%d", i%20)
 	content := []byte(fmt.Sprintf("bad push content %d %d %s", i, rng.IntN(1<<30), strings.Repeat("z", rng.IntN(40))))
+	if (i/9)%3 == 2 {
+		// the same disagreements at sizes where an implementation might read differently (a megabyte and more)
+		content = append(content, bytes.Repeat([]byte{byte('A' + i%26)}, 1<<20+rng.IntN(4096))...)
+		run.Count("bad_pushes_large", 1)
+	}
 	other := []byte(fmt.Sprintf("other bytes %d %d", i, rng.IntN(1<<30)))
 	kinds := []string{"digest-of-other-bytes", "size+1", "size-1", "size-0-with-content", "truncated-content", "chunked-wrong-commit-digest", "empty-body-declared-nonempty", "empty-body-empty-digest-size-5"}
 	if !isHTTP(c.kind) {
